@@ -281,6 +281,92 @@ fn run_aff_case(cx: &mut Cx, c: &Value) {
     }
 }
 
+// ------------------------------------------------------------------ quaternions (C04, C05)
+macro_rules! run_quat {
+    ($cx:ident, $c:ident, $Q:ident, $S:ident, $V3:ident, $M3:ident, $M4:ident, [$(($VA:ident, $mulv:ident)),*]) => {{
+        let name = stringify!($Q);
+        let skip = $cx.only_ty.as_ref().map(|t| t != name).unwrap_or(false);
+        if !skip {
+        let e = &$c["exp"];
+        let kind = $c["kind"].as_str().unwrap();
+        let pi = ints(&$c["p"]); let qi = ints(&$c["q"]); let vi = ints(&$c["v"]);
+        let half = if kind == "qrot" { 0.5 } else { 1.0 };
+        let mkq = |a: &[i64]| $Q::from_xyzw(a[0] as $S * half, a[1] as $S * half, a[2] as $S * half, a[3] as $S * half);
+        let arr = |q: $Q| -> Vec<f64> { q.to_array().iter().map(|c| *c as f64).collect() };
+        let r = catch(|| {
+            let p = mkq(&pi); let q = mkq(&qi);
+            let mut out: Vec<(String, &'static str, Vec<f64>, Vec<f64>)> = vec![];
+            let fi = |v: &Value| -> Vec<f64> { ints(v).iter().map(|x| *x as f64).collect() };
+            if kind == "quat" {
+                let mut t = p; t *= q;
+                out.push(("mul_quat".into(), "p * q", fi(&e["ham"]), arr(p * q)));
+                out.push(("mul_quat".into(), "mul_quat", fi(&e["ham"]), arr(p.mul_quat(q))));
+                out.push(("mul_quat".into(), "p *= q", fi(&e["ham"]), arr(t)));
+                out.push(("mul_quat".into(), "[p, q].iter().product()", fi(&e["ham"]), arr([p, q].iter().product::<$Q>())));
+                out.push(("conjugate".into(), "method", fi(&e["conj"]), arr(p.conjugate())));
+                out.push(("add".into(), "p + q", fi(&e["add"]), arr(p + q)));
+                out.push(("add".into(), "[p, q].iter().sum()", fi(&e["add"]), arr([p, q].iter().sum::<$Q>())));
+                out.push(("sub".into(), "p - q", fi(&e["sub"]), arr(p - q)));
+                out.push(("neg".into(), "-p", fi(&e["neg"]), arr(-p)));
+                let s = e["s"].as_i64().unwrap() as $S;
+                out.push(("scale".into(), "p * s", fi(&e["scaled"]), arr(p * s)));
+                if s == 2.0 || s == -2.0 || s == 1.0 || s == -1.0 {
+                    out.push(("scale".into(), "p / (1/s)", fi(&e["scaled"]), arr(p / (1.0 / s))));
+                }
+                out.push(("dot".into(), "method", vec![e["dot"].as_i64().unwrap() as f64], vec![p.dot(q) as f64]));
+                out.push(("length_squared".into(), "method", vec![e["n2"].as_i64().unwrap() as f64], vec![p.length_squared() as f64]));
+                let v4: Vec<f64> = Into::<[$S; 4]>::into(p).iter().map(|c| *c as f64).collect();
+                out.push(("to_array".into(), "Into<[T;4]>", pi.iter().map(|x| *x as f64).collect(), v4));
+            } else {
+                // p, q are doubled Hurwitz units
+                let v = $V3::new(vi[0] as $S, vi[1] as $S, vi[2] as $S);
+                let rot = fi(&e["rot"]);
+                out.push(("mul_vec3".into(), "q * v", rot.clone(), (p * v).to_array().iter().map(|c| *c as f64).collect()));
+                out.push(("mul_vec3".into(), "mul_vec3", rot.clone(), p.mul_vec3(v).to_array().iter().map(|c| *c as f64).collect()));
+                $(
+                    let va = $VA::new(vi[0] as $S, vi[1] as $S, vi[2] as $S);
+                    out.push(("mul_vec3a".into(), "q * Vec3A", rot.clone(), (p * va).to_array().iter().map(|c| *c as f64).collect()));
+                    out.push(("mul_vec3a".into(), stringify!($mulv), rot.clone(), p.$mulv(va).to_array().iter().map(|c| *c as f64).collect()));
+                    // hidden lane of the operand must not matter
+                    let vh = $VA::from_vec4(glam::Vec4::new(vi[0] as f32, vi[1] as f32, vi[2] as f32, 777.0));
+                    out.push(("mul_vec3a".into(), "q * Vec3A(hidden lane set)", rot.clone(), (p * vh).to_array().iter().map(|c| *c as f64).collect()));
+                )*
+                out.push(("rotation by -q".into(), "(-q) * v", rot.clone(), ((-p) * v).to_array().iter().map(|c| *c as f64).collect()));
+                out.push(("inverse".into(), "q.inverse() * (q * v)", vi.iter().map(|x| *x as f64).collect(), (p.inverse() * (p * v)).to_array().iter().map(|c| *c as f64).collect()));
+                out.push(("inverse".into(), "inverse()", fi(&e["inv2"]).iter().map(|x| x * 0.5).collect(), arr(p.inverse())));
+                out.push(("product then rotate".into(), "(p * q) * v", fi(&e["rot_pq"]), ((p * q) * v).to_array().iter().map(|c| *c as f64).collect()));
+                out.push(("product then rotate".into(), "p * (q * v)", fi(&e["rot_pq"]), (p * (q * v)).to_array().iter().map(|c| *c as f64).collect()));
+                out.push(("mul_quat".into(), "p * q (units)", fi(&e["pq2"]).iter().map(|x| x * 0.5).collect(), arr(p * q)));
+                // C05: the matrix of the quaternion
+                out.push(("Mat3::from_quat".into(), stringify!($M3), fi(&e["mat"]), $M3::from_quat(p).to_cols_array().iter().map(|c| *c as f64).collect()));
+                let m4 = $M4::from_quat(p).to_cols_array();
+                let blk: Vec<f64> = [0, 1, 2, 4, 5, 6, 8, 9, 10].iter().map(|i| m4[*i] as f64).collect();
+                out.push(("Mat4::from_quat".into(), stringify!($M4), fi(&e["mat"]), blk));
+                out.push(("normalize".into(), "(2q).normalize()", pi.iter().map(|x| *x as f64 * 0.5).collect(), arr((p * 2.0).normalize())));
+                out.push(("length".into(), "(2q).length()", vec![2.0], vec![(p * 2.0).length() as f64]));
+            }
+            out
+        });
+        match r {
+            Err(pn) => $cx.rep.mismatch(json!({"prop": $cx.prop, "ty": name, "op": "any", "got": "panic", "panic": pn, "case": $c})),
+            Ok(out) => for (op, sp, ex, got) in out {
+                $cx.rep.evals += 1;
+                let ok = ex.len() == got.len() && ex.iter().zip(&got).all(|(e, g)| *e == *g);
+                if !ok {
+                    $cx.rep.mismatch(json!({"prop": $cx.prop, "ty": name, "op": op, "spelling": sp, "kind": kind,
+                        "p": $c["p"], "q": $c["q"], "v": $c["v"], "exp": ex, "got": got, "case": $c}));
+                }
+            },
+        }
+        }
+    }};
+}
+
+fn run_quat_case(cx: &mut Cx, c: &Value) {
+    run_quat!(cx, c, Quat, f32, Vec3, Mat3, Mat4, [(Vec3A, mul_vec3a)]);
+    run_quat!(cx, c, DQuat, f64, DVec3, DMat3, DMat4, []);
+}
+
 fn main() {
     let args: Vec<String> = std::env::args().collect();
     quiet_panics();
@@ -302,6 +388,12 @@ fn main() {
                     3 => { run_mat::<Mat3>(&mut cx, &c); run_mat::<Mat3A>(&mut cx, &c); run_mat::<DMat3>(&mut cx, &c); }
                     _ => { run_mat::<Mat4>(&mut cx, &c); run_mat::<DMat4>(&mut cx, &c); }
                 }
+            }
+            "quat" | "qrot" => {
+                let nz = ints(&c["p"]).iter().filter(|x| **x != 0).count() + ints(&c["q"]).iter().filter(|x| **x != 0).count();
+                if nz > 2 { cx.rep.nontrivial += 1; }
+                cx.rep.count_op(kind, 1);
+                run_quat_case(&mut cx, &c);
             }
             "aff" => {
                 cx.rep.nontrivial += 1;
